@@ -188,6 +188,10 @@ class _Underscore:
     def getitem(self, key, call=0):
         return self._i.lookup(key, bool(call))
 
+    def render(self, v):
+        """_.render(v): v as a name lookup in a tag would insert it"""
+        return self._i.called(v)
+
 
 class _Env(dict):
     """locals mapping for eval(): names come uncalled from the stack."""
@@ -245,12 +249,22 @@ class Interp:
                 self.unspec = True
                 return UNSPEC
             if call:
-                if isinstance(v, RefTemplate):
-                    return self.call_template(v)
-                if callable(v) and not isinstance(v, BaseException):
-                    return v()
+                return self.called(v)
             return v
         raise KeyError(key)
+
+    def called(self, v):
+        """what a name lookup in a tag makes of the value it found: an
+        object that renders itself with a namespace is handed the current
+        one, a document template is rendered on it, any other callable is
+        called"""
+        if hasattr(v, '__render_with_namespace__'):
+            return v.__render_with_namespace__(_Underscore(self))
+        if isinstance(v, RefTemplate):
+            return self.call_template(v)
+        if callable(v) and not isinstance(v, BaseException):
+            return v()
+        return v
 
     def evaluate(self, ref, call=True):
         kind, v = ref
